@@ -11,7 +11,8 @@ def metamorphic(ctx, h, backend, n, idx):
     rng = ctx.rng
     base = gen_api.stream(rng, ["str", "key", "list", "hash", "set", "zset", "exp"], n, realtime=True, dump_every=0)[1:-1]
     # relational commands answer differently from run to run by design: leave them out here
-    base = [o for o in base if not any(x in o for x in (" RandomKey", " SPop ", " SRandMember "))]
+    # ... and so does the positional SCAN cursor once expired records have been collected (known finding A-121b)
+    base = [o for o in base if not any(x in o for x in (" RandomKey", " SPop ", " SRandMember ", " Scan "))]
     variants = {}
     for name in ("none", "every", "faulty"):
         pdir = f"{ctx.work}/pebble-meta-{idx}-{name}"
